@@ -7,6 +7,9 @@ the file, as step lists over the vocabulary of `NixModel/Pure/VecWrite.lean`:
     Tag.position / Tag.extent setters        -> tagPosition / tagExtent            : Setter
     DataArray.polynom_coefficients setter    -> polynomCoefficients                : Setter
     Property.values setter                   -> propertyValues                     : Setter
+    RangeDimension.ticks setter              -> rangeTicks                         : List Step
+          ticks = np.asarray(ticks, dtype=DataType.Double) -> .convertIf []     if np.any(np.diff(ticks) < 0): raise -> .checkOrder
+          if self.has_link: self.remove_link() -> .removeLink
 
 Statements are rendered in source order, one step each:
 
@@ -254,6 +257,32 @@ def _setter(fn, dsname, where):
     return kind, pre, when_empty, otherwise, post
 
 
+def _ticks_steps(fn):
+    """RangeDimension.ticks setter: a flat statement list (no empty test)"""
+    where = "RangeDimension.ticks"
+    args = [a.arg for a in fn.args.args]
+    if args != ["self", "ticks"]:
+        raise ExtractError("%s: parameters %s" % (where, args))
+    steps = []
+    for st in _strip_doc(fn.body):
+        s = _u(st)
+        if _is_convert(st, "ticks") and _u(st.targets[0]) == "ticks" and _u(st.value.func) in ("np.asarray", "np.array"):
+            steps.append(".convertIf []")
+        elif isinstance(st, ast.If) and not st.orelse and _u(st.test) == _E("np.any(np.diff(ticks) < 0)") and \
+                len(st.body) == 1 and isinstance(st.body[0], ast.Raise):
+            steps.append(".checkOrder")
+        elif isinstance(st, ast.If) and not st.orelse and _u(st.test) == _E("self.has_link") and \
+                [_u(x) for x in st.body] == [_E("self.remove_link()")]:
+            steps.append(".removeLink")
+        elif s == _E('self._h5group.write_data("ticks", ticks, dtype=DataType.Double)'):
+            steps.append(".callWriteData (some .double)")
+        elif s == _E('self._h5group.write_data("ticks", ticks)'):
+            steps.append(".callWriteData none")
+        else:
+            raise ExtractError("%s line %d: statement not modelled: %s" % (where, st.lineno, ast.unparse(st)[:80]))
+    return steps
+
+
 def _render_setter(lname, pyname, parts):
     kind, pre, we, ot, post = parts
     lst = lambda xs: "[" + ", ".join(xs) + "]"      # noqa
@@ -287,6 +316,9 @@ def extract(repo):
            "def writeDataSteps : List Step := [%s]" % ", ".join(wd), ""]
     for lname, pyname, parts in setters:
         out.append(_render_setter(lname, pyname, parts))
+    dims = _cls(_parse(repo, "nixio/dimensions.py"), "RangeDimension", "nixio/dimensions.py")
+    out.append("/-- `RangeDimension.ticks = ticks`: its statements in source order -/\ndef rangeTicks : List Step := [%s]\n"
+               % ", ".join(_ticks_steps(_method(dims, "ticks", True))))
     out.append("def floatSetters : List (String × Setter) :=\n  [(%s, tagPosition), (%s, tagExtent), (%s, polynomCoefficients)]"
                % (lean_str("Tag.position"), lean_str("Tag.extent"), lean_str("DataArray.polynom_coefficients")))
     out += ["", "end Nix.Generated.WriteOrder", ""]
